@@ -413,6 +413,31 @@ func runC14(w *World, r *Report) {
 		}
 	}
 
+	// ---- the tool calls of a concatenated message always went through the merge
+	r.Rule("C14.tool-calls-always-merged", "whatever ConcatMessages puts into the result's ToolCalls is what concatToolCalls returned: fragments of one call can arrive in ONE chunk as well as in several, and only the merge joins them by index, in arrival order, and orders the result — a short cut for 'all tool calls came in one chunk' makes the result depend on chunk boundaries", 1)
+	{
+		cmsg := w.Fn("schema", "ConcatMessages")
+		ctc := w.Fn("schema", "concatToolCalls")
+		msgT := w.Named("schema", "Message")
+		n := 0
+		for _, fw := range fieldWrites(cmsg) {
+			if fw.owner != msgT || fw.field.Name() != "ToolCalls" || fw.kind != "store" {
+				continue
+			}
+			n++
+			fromMerge := false
+			if e, ok := fw.val.(*ssa.Extract); ok {
+				if c, isC := e.Tuple.(*ssa.Call); isC && isCallTo(c, ctc) {
+					fromMerge = true
+				}
+			}
+			r.Check(fromMerge, "C14.tool-calls-always-merged", fmt.Sprintf("ConcatMessages: ToolCalls store #%d", n), fw.in.Pos(), "the result of concatToolCalls", "the collected tool calls are stored unmerged ("+valText(fw.val)+"): a lone tool-call chunk that holds two fragments of the same index, surrounded only by text chunks, yields two half-JSON tool calls, while the same fragments delivered one per chunk yield one merged call")
+		}
+		if n == 0 {
+			undecidedf("C14.tool-calls-always-merged: ConcatMessages stores no ToolCalls")
+		}
+	}
+
 	// ---- registry-first: a registered concat function decides for its type whatever the type's kind
 	r.Rule("C14.registry-first", "the built-in key-wise map merge (concatMaps) is entered only where the registry was asked for the chunk type and had nothing: a function registered for a named map type is what concatenates its chunks, as for every other kind; the same for the retyping of interface-typed chunks by their dynamic type", 3)
 	{
@@ -428,6 +453,34 @@ func runC14(w *World, r *Report) {
 				}
 			}
 		})
+		// the third built-in treatment: the generic "at most one non-zero chunk" rule of concatSliceValue looks at the chunks
+		// (IsZero) only where the registry had nothing — a type with a registered function ("use last" for numbers, bools,
+		// times) is concatenated by that function whatever the chunks look like
+		{
+			csv := w.Fn("internal", "concatSliceValue")
+			k := 0
+			instrs(csv, func(in ssa.Instruction) {
+				c, ok := in.(*ssa.Call)
+				if !ok || calleeFullName(c) != "(reflect.Value).IsZero" {
+					return
+				}
+				k++
+				isReg := func(g guard) bool {
+					return guardIsNil(g, func(v ssa.Value) bool { cc, ok := v.(*ssa.Call); return ok && isCallTo(cc, gcf) })
+				}
+				asked := false
+				for d := c.Block(); d != nil && !asked; d = d.Idom() {
+					gs := compoundEntryGuards(d)
+					gs = append(gs, guardsOf(d)...)
+					for _, g := range gs {
+						if isReg(g) {
+							asked = true
+						}
+					}
+				}
+				r.Check(asked, "C14.registry-first", fmt.Sprintf("concatSliceValue: zero test #%d of the generic rule", k), c.Pos(), "under GetConcatFunc(type) == nil", "the generic 'exactly one non-zero chunk: return it' rule runs before the registry is asked: for the built-in 'use last' types a trailing zero is the right result, and now [2 1 0] all at once gives 0 while the prefix [2 1] gives 1 and then [1 0] gives 1 — the result depends on chunk boundaries")
+			})
+		}
 		var sites []ssa.CallInstruction
 		for _, b := range builtins {
 			sites = append(sites, w.staticCallers(b)...)
